@@ -14,7 +14,7 @@ RULE = ("cases = (transport, batch config, JSON array bytes) delivered as ONE me
         "sync/async/blocking/panicking/unknown methods, handler errors, calls to the subscription and unsubscription methods, "
         "notifications (no id, id outside the domain, duplicate id), invalid objects with and without a recoverable id, non-objects "
         "(scalars, arrays incl. the sequence forms of the request structs), duplicate ids}, all 120 permutations of 5-entry batches, "
-        "random batches up to 40 entries, malformed arrays; x batch config {Disabled, Limit(0,1,2,3,5,40), Unlimited} x {HTTP, WS}; "
+        "random batches up to 40 entries, malformed arrays; x batch config {Disabled, Limit(0,1,2,3,5,40), Unlimited} x {HTTP, WS}; a family with a small max_response_body_size (array crossing the limit at every entry position: whole array entry-by-entry equal to the answers alone, or the single -32011 object); "
         "every distinct call entry is also sent alone (entry == single reply).  distinct non-trivial = distinct result lines other "
         "than the fixed gate answers (-32005 / -32010 / -32600 / -32700 with id null)")
 TRUSTED = [
@@ -110,6 +110,21 @@ def gen_cases(ctx):
     for _ in range(ctx.scale(150, 3000)):
         batches.append((G.mutate_bytes(rng, build(rng, [rng.choice(list(KINDS)) for _ in range(rng.choice([1, 2, 3]))])), "byte-mutated"))
 
+    # a small response-size limit: 2..5 echo calls whose answers each fit on their own while the array crosses the limit at
+    # every entry position (with room left / no room left for a small error object): the reply is the whole array, entry by
+    # entry equal to the answers the calls get alone, or the single -32011 object -- never an array with an altered entry
+    limited = []
+    for _ in range(ctx.scale(60, 1200)):
+        n = rng.choice([2, 3, 4, 5])
+        sizes = [rng.choice([10, 60, 130, 300]) for _ in range(n)]
+        es = [b'{"jsonrpc":"2.0","id":%d,"method":"%s","params":["%s"]}' % (k + 1, rng.choice([b"echo", b"aecho", b"becho"]), b"p" * z) for k, z in enumerate(sizes)]
+        if rng.random() < 0.3:
+            es.insert(rng.randrange(len(es) + 1), b'{"jsonrpc":"2.0","method":"echo","params":[0]}')
+        approx = [z + 45 for z in sizes]
+        pos = rng.randrange(1, n + 1)
+        limit = max(max(approx) + 60, sum(approx[:pos]) + rng.choice([-20, 5, 60, 125, 200]))
+        limited.append((b"[" + b",".join(es) + b"]", "response-limit", "u+r%d" % limit))
+
     n_ws = ctx.scale(3000, 100000)
     ws_idx = set(rng.sample(range(len(batches)), min(n_ws, len(batches))))
     for k, (m, tag) in enumerate(batches):
@@ -118,6 +133,9 @@ def gen_cases(ctx):
             cases.append(("http", c, m, tag))
             if k in ws_idx:
                 cases.append(("ws", c, m, tag))
+    for m, tag, c in limited:
+        cases.append(("http", c, m, tag))
+        cases.append(("ws", c, m, tag))
     return cases
 
 
@@ -153,6 +171,7 @@ def oracle_batch(ctx, transport, cfg, msg, o, tag, want_single):
         if o["log"]:
             ctx.fail("oracle", "batch-gate-executed-entries", case, {"why": why, "log": o["log"]})
 
+    cfg, _, rs = cfg.partition("+r")          # optional response-size limit of the case
     if cfg == "d":
         gate(-32005, "batching disabled")
         return "gate:disabled", None
@@ -182,6 +201,16 @@ def oracle_batch(ctx, transport, cfg, msg, o, tag, want_single):
         ctx.fail("oracle", key, case, detail)
 
     want_log = S.expected_log(transport, calls)
+    if rs and len(reps) >= 1:
+        ok, i, kind, payload = S.wellformed(reps[-1])
+        if ok and kind == "error" and payload[0] == -32011 and i is None:
+            # "only the response-size limit (C08) may replace the array by a single error": whether it was right to do so is
+            # judged by the model (diff) and by C08; here: nothing else was sent, and the handlers that ran are a prefix
+            if len(reps) != 1 and not in_sub_class:
+                fail("batch-frames-outside-array", [r.decode("latin1") for r in reps])
+            if o["log"] != want_log[:len(o["log"])]:
+                fail("batch-handler-log", {"want_prefix_of": want_log, "got": o["log"]})
+            return "replaced-by-32011", None
     if o["log"] != want_log:
         fail("batch-handler-log", {"want": want_log, "got": o["log"]})
     if not answered:
@@ -232,7 +261,7 @@ def run(ctx):
     want_single = []
     for (t, c, m, tag), (a, b) in zip(cases, res):
         ctx.count(t)
-        ctx.count("cfg:" + ("limit" if c.startswith("l") else c))
+        ctx.count("cfg:" + ("limit" if c.startswith("l") else "response-limit" if "+r" in c else c))
         ctx.count("gen:" + tag)
         case = {"transport": t, "cfg": c, "msg_hex": m.hex(), "msg": S.show(m), "tag": tag}
         o = S.parse_out(a)
